@@ -118,7 +118,7 @@ deriving Repr
 /-! ## small helpers -/
 
 def sinsert [DecidableEq α] (a : α) (l : List α) : List α := if a ∈ l then l else a :: l
-def sremove [DecidableEq α] (a : α) (l : List α) : List α := l.filter (· ≠ a)
+def sremove [DecidableEq α] (a : α) (l : List α) : List α := l.filter (fun x => !decide (x = a))
 
 def keyOf (s : St) (t : Tid) : Key := match s.tasks[t]? with | some x => x.key | none => 0
 def futOf (s : St) (t : Tid) : FutSt := match s.tasks[t]? with | some x => x.fut | none => .cancelled
